@@ -46,6 +46,7 @@ package zenodb
 //@   modifies *
 //@   capture sameLayout Bool = result 0 of call core.Fields).Equals
 //@   at call dyn:onRow assert raw_only_if_same_layout: len(callarg2) == 0 || sameLayout
+//@   at call dyn:onRow assert raw_only_if_allowed: len(callarg2) == 0 || rawOkay
 //@   at call zenodb.rowMapper assert maps_from_file_header: callarg0 == outFields && callarg1 == fileFields
 //@   at call dyn:onRow assert columns_fresh_per_row: len(callarg1) == 0 || freshInLoop(callarg1)
 
@@ -84,10 +85,12 @@ package zenodb
 //@   loop 0 invariant running: forall k :: visited(k) && lastretOn(old(remainingIterations[k]), "onValue", 0) ==> has(remainingIterations, k)
 
 // C14: a truncating flush (disallowRaw) must not let stored rows bypass doWrite's truncation: raw pass-through is
-// permitted (rawOkay argument of fileStore.iterate) only when the flush does not disallow it.
+// permitted (rawOkay argument of fileStore.iterate) only when the flush does not disallow it. C03/C14: and only on an
+// unsorted flush - doWrite re-encodes what it hands to the sorter and would drop a row that arrives as raw bytes only.
 //@ func (*fileStore).flush$2
 //@   modifies *
 //@   at call (*zenodb.fileStore).iterate assert truncating_flush_not_raw: disallowRaw ==> !callarg4
+//@   at call (*zenodb.fileStore).iterate assert raw_only_on_unsorted_flush: callarg4 ==> !shouldSort
 
 // C14: every tenth flush is a truncating one (flush count 9, 19, 29, ... before the increment), so an expired period is
 // gone after at most ten data-carrying flushes; the counter advances by exactly one per flush attempt.
@@ -247,11 +250,14 @@ package zenodb
 //@   loop 0 invariant same_table: len(iterations) > 0 && (forall j in 0..len(iterations) :: iterations[j].t == it.t)
 
 // C02: every WAL entry handed to the insert loop carries its own offset value (the reader goes on reading, and the
-// memstore keeps the offset it is given): the offset slice sent is the one wal.Offset() returned for this entry.
+// memstore keeps the offset it is given): the offset slice sent is the one wal.Offset() returned for this entry, read
+// after the entry itself (the position just past it: a flush records it as the resume point).
 //@ func (*table).processWALInserts
 //@   modifies *
 //@   callback Panic noreturn
 //@   capture entryOffset Slice = result 0 of call wal.Reader).Offset
+//@   capture entryData Slice = result 0 of call wal.Reader).Read
+//@   at call wal.Reader).Offset assert offset_read_after_the_entry: captured(entryData)
 //@   at call send:in assert own_offset_per_entry: captured(entryOffset) && callarg0.offset == entryOffset && callarg0.source == 0
 
 // C18: a scan's view is one instant of the table: the filestore it will read and the memstore copy are taken inside the
